@@ -654,8 +654,8 @@ def check_two_users(case):
             if opn == "get_many":
                 return hc.get_many([key, "zz"])
             return hc.set_many({key: b"v"})
-        # two connections sit idle in the failing server's pool (earlier overlapping use)
-        interleave.run(env.net, [one, one], choices=[1, 1, 1, 1, 1, 1])
+        # four connections sit idle in the failing server's pool (earlier overlapping use), more than the calls below use up
+        interleave.run(env.net, [one, one, one, one], choices=[1] * 24)
         srv = env.servers[0]
 
         def quiet():
@@ -678,7 +678,17 @@ def check_two_users(case):
                 srv.down = None
         else:
             srv.down = "reset-recv"
-        out, sc = interleave.run(env.net, [one, one], choices=case["choices"], kinds=("connect", "sendall", "recv", "close"))
+        def twice():
+            # each user makes two calls in a row (the second starts while the other user's first may be in the middle of anything)
+            errs = []
+            for _ in range(2):
+                try:
+                    one()
+                except Exception as e:  # noqa: BLE001
+                    errs.append(e)
+            if errs:
+                raise errs[0] if not [x for x in errs if not isinstance(x, (OSError, MemcacheError))] else [x for x in errs if not isinstance(x, (OSError, MemcacheError))][0]
+        out, sc = interleave.run(env.net, [twice, twice], choices=case["choices"], kinds=("connect", "sendall", "recv", "close"))
         for u, r in enumerate(out):
             if r[0] == "exc":
                 e = r[1]
